@@ -23,6 +23,7 @@ import contextvars
 import random
 import threading
 import time
+import warnings
 
 from .. import delay
 from ..collect import guarded, sig_of
@@ -112,6 +113,18 @@ class Monitor:
             return self.seq
 
 
+warnings.filterwarnings("ignore", message=r"The `cancellable=` keyword", category=DeprecationWarning)
+
+
+def flag_kwargs(spec: dict) -> dict:
+    kw = spec.get("kw", "own")
+    if kw == "alias":
+        return {"cancellable": spec["abandon"]}
+    if kw == "conflict":
+        return {"abandon_on_cancel": not spec["abandon"], "cancellable": spec["abandon"]}
+    return {"abandon_on_cancel": spec["abandon"]}
+
+
 def gen_case(rng: random.Random, cfg: str) -> dict:
     total = rng.randint(1, 4)
     n = rng.randint(1, 12)
@@ -130,7 +143,12 @@ def gen_case(rng: random.Random, cfg: str) -> dict:
                       "stagger": rng.randint(0, 3),
                       # the cancelled scope around the call may itself be shielded (cleanup
                       # idiom): it is then still the caller's own, visible cancellation
-                      "shield": rng.random() < 0.3})  # fmt: skip
+                      "shield": rng.random() < 0.3,
+                      # how the flag reaches run_sync: by its own name, by the deprecated
+                      # alias `cancellable=` alone, or by both with conflicting values - the
+                      # alias is documented to override, so "abandon" stays the effective
+                      # value in all three (seeded change C14-g)
+                      "kw": rng.choice(["own", "own", "alias", "conflict"])})  # fmt: skip
 
     order = list(range(n))
     rng.shuffle(order)
@@ -293,14 +311,17 @@ def execute(case: dict) -> dict:
             if spec.get("shield"):
                 window("caller_scope_shielded")
 
+            if spec.get("kw", "own") != "own":
+                window("flag_passed_by:" + spec["kw"])
+
             try:
                 if spec["nested"]:
                     with CancelScope():
-                        v = await to_thread.run_sync(make_fn(i, spec), abandon_on_cancel=spec["abandon"],
-                                                     limiter=limiter)  # fmt: skip
+                        v = await to_thread.run_sync(make_fn(i, spec), limiter=limiter,
+                                                     **flag_kwargs(spec))  # fmt: skip
                 else:
-                    v = await to_thread.run_sync(make_fn(i, spec), abandon_on_cancel=spec["abandon"],
-                                                 limiter=limiter)  # fmt: skip
+                    v = await to_thread.run_sync(make_fn(i, spec), limiter=limiter,
+                                                 **flag_kwargs(spec))  # fmt: skip
 
                 rec["returned"] = True
                 rec["value_ok"] = v is results[i]
